@@ -6,6 +6,7 @@ import (
 	"sort"
 	"strings"
 	"sync"
+	"sync/atomic"
 	"time"
 
 	"verifh/walk"
@@ -100,12 +101,12 @@ func c19Round(c *Case, r *Rng, builtin bool, rep int) {
 	for i := range seeds {
 		seeds[i] = r.Fork()
 	}
-	var wg sync.WaitGroup
+	var wg, wgWriters sync.WaitGroup
 	start := make(chan struct{})
 	for i := range conns {
-		wg.Add(1)
+		wgWriters.Add(1)
 		go func(cc *c19conn, rr *Rng) {
-			defer wg.Done()
+			defer wgWriters.Done()
 			<-start
 			cc.conn = OpenConn(fmt.Sprintf("c%d", cc.idx))
 			cc.table = fmt.Sprintf("t%d_r%d_c%d_%d", c.Index, rep, cc.idx, rr.Intn(1<<30))
@@ -248,8 +249,74 @@ func c19Round(c *Case, r *Rng, builtin bool, rep int) {
 			cc.local, _ = cc.conn.Rows("select * from "+cc.table+" where k >= ? and k <= ? order by k", int64(lo), int64(hi))
 		}(conns[i], seeds[i])
 	}
+	// read-only observers on the shared prefixes: merge-on-open, refresh, version and changes
+	// while the writers run (their requests carry the read-only flag: no PUT, no DELETE)
+	nobs := r.Range(1, 2)
+	obsErrs := make([][]string, nobs)
+	var stop int32
+	for o := 0; o < nobs && !builtin; o++ {
+		wg.Add(1)
+		go func(o int, rr *Rng) {
+			defer wg.Done()
+			<-start
+			conn := OpenConn(fmt.Sprintf("obs%d", o))
+			defer conn.Close()
+			p := rr.Intn(nprefix)
+			t := fmt.Sprintf("t%d_r%d_obs%d", c.Index, rep, o)
+			sp := TableSpec{Name: t, Cols: cols, Prefix: prefixName(p), Store: st.Name, Client: fmt.Sprintf("obs%d", o), ReadOnly: true}
+			if err := conn.Create(sp); err != nil {
+				obsErrs[o] = append(obsErrs[o], "observer open: "+err.Error())
+				return
+			}
+			first := ""
+			for i := 0; i < 40 && atomic.LoadInt32(&stop) == 0; i++ {
+				if err := conn.Exec("select s3db_refresh('" + t + "')"); err != nil {
+					obsErrs[o] = append(obsErrs[o], "observer refresh: "+err.Error())
+					return
+				}
+				v, err := conn.Scalar("select s3db_version('" + t + "')")
+				if err != nil {
+					obsErrs[o] = append(obsErrs[o], "observer version: "+err.Error())
+					return
+				}
+				if first == "" {
+					first = strings.TrimPrefix(v, "t:")
+				}
+				if _, err := conn.Rows("select count(*), min(k), max(k) from " + t); err != nil {
+					obsErrs[o] = append(obsErrs[o], "observer select: "+err.Error())
+					return
+				}
+				if i%4 == 3 && first != "[]" {
+					ct := t + "_chg"
+					if err := conn.Exec(fmt.Sprintf("create virtual table %s using s3db_changes (table='%s', from='%s')", ct, t, first)); err == nil {
+						if _, err := conn.Rows("select * from " + ct); err != nil && !strings.Contains(err.Error(), "not found") && !strings.Contains(err.Error(), "NoSuchKey") {
+							// a version retired and vacuumed in between may be gone; anything else is an error
+							obsErrs[o] = append(obsErrs[o], "observer changes: "+err.Error())
+						}
+						conn.Exec("drop table " + ct)
+					}
+				}
+				time.Sleep(time.Duration(rr.Intn(2000)) * time.Microsecond)
+			}
+		}(o, r.Fork())
+	}
 	close(start)
+	wgWriters.Wait()
+	atomic.StoreInt32(&stop, 1)
 	wg.Wait()
+	for o := range obsErrs {
+		for _, e := range obsErrs[o] {
+			c.Violate("C19:observer-error", fmt.Sprintf("read-only observer %d: %s", o, e), nil)
+			return
+		}
+	}
+	for _, a := range st.Asserts() {
+		if strings.HasPrefix(a, "readonly-mutation") {
+			c.Violate("C19:observer-mutation", a, nil)
+			return
+		}
+	}
+	c.Count("observers", int64(nobs))
 	c.Count("rounds", 1)
 	c.Count("connections", int64(m))
 	defer func() {
